@@ -76,6 +76,34 @@ fn check_value(v: u32, dribble: bool) -> Result<(), String> {
         other => return Err(format!("read({four:02x?}) = {other:?} rest {}, expected {v}", cur.len())),
     }
     if dribble {
+        // sinks that accept fewer bytes than the encoding needs: a bounded slice that is too short
+        // must fail (never report a short success); a sink taking one byte per call must get all
+        if n == 4 {
+            let room = (v as usize) % 4; // 0..=3 bytes of room
+            let mut small = [0xEEu8; 4];
+            match vi.write(&mut small[..room]) {
+                Err(_) => {}
+                Ok(k) => return Err(format!("write({v}) into a {room}-byte slice returned Ok({k}) instead of an error")),
+            }
+        }
+        struct OneByte(Vec<u8>);
+        impl std::io::Write for OneByte {
+            fn write(&mut self, b: &[u8]) -> io::Result<usize> {
+                if b.is_empty() {
+                    return Ok(0);
+                }
+                self.0.push(b[0]);
+                Ok(1)
+            }
+            fn flush(&mut self) -> io::Result<()> {
+                Ok(())
+            }
+        }
+        let mut ob = OneByte(Vec::new());
+        match vi.write(&mut ob) {
+            Ok(k) if k == n && ob.0[..] == exp[..n] => {}
+            other => return Err(format!("write({v}) into a one-byte-per-call sink returned {other:?} and wrote {:02x?}", ob.0)),
+        }
         // the same through a reader that returns one byte per call
         let mut d = Dribble { data: &buf[..=n], step: 1, calls: 0 };
         match VarInt::read(&mut d) {
